@@ -84,6 +84,8 @@ def run(tier, seed, replay=None):
     cases = load_replay_case(replay) if replay else alg_cases(tier, rng) + timed_cases(tier, rng) + ileave2.cases(tier, rng, kinds=("hot",)) + pool_cases(tier)
     res = correspond(rep, "C17", cases, "C17_closed_sound / C17_algebra_closed_sound / C17_late_additions / C17_closed_stable")
     xcheck.cross_check(rep, "C17", cases, res, 40 if tier == "quick" else 400)
+    if not replay:
+        real_timer_cases(rep, "C17_closed_sound (unsubscribe() against an item in flight on another thread, real timers)", which="races")
     c = rep.coverage
     hist = {}
     for _, _, t in cases:
